@@ -123,13 +123,14 @@ pub fn gen_shape(src: &mut Src) -> LefShape {
     match src.below(3) {
         0 => LefShape::Rect(gen_mask(src), gen_pt(src), gen_pt(src)),
         1 => {
-            let n = src.usize_in(3, 6);
+            // (one list in ten is longer than any small inline buffer)
+            let n = if src.prob(1, 10) { src.usize_in(7, 20) } else { src.usize_in(3, 6) };
             let m = gen_mask(src);
             let pts = (0..n).map(|_| gen_pt(src)).collect();
             LefShape::Polygon(m, maybe_closed(src, pts))
         }
         _ => {
-            let n = src.usize_in(2, 5);
+            let n = if src.prob(1, 10) { src.usize_in(7, 20) } else { src.usize_in(2, 5) };
             LefShape::Path(gen_mask(src), (0..n).map(|_| gen_pt(src)).collect())
         }
     }
@@ -294,7 +295,7 @@ fn gen_via_shape(src: &mut Src) -> LefViaShape {
     if src.bool() {
         LefViaShape::Rect(gen_mask(src), gen_pt(src), gen_pt(src))
     } else {
-        let n = src.usize_in(3, 5);
+        let n = if src.prob(1, 10) { src.usize_in(7, 20) } else { src.usize_in(3, 5) };
         let m = gen_mask(src);
         let pts = (0..n).map(|_| gen_pt(src)).collect();
         LefViaShape::Polygon(m, maybe_closed(src, pts))
@@ -529,7 +530,7 @@ impl<'a, 'b> Renderer<'a, 'b> {
             }
             3 => {
                 // line ends: LF, CR LF (files written on other systems), form feed
-                self.out.push_str(*self.src.pick(&["\n  ", "\n", "\r\n", "\r\n\t", " \x0c\n"]));
+                self.out.push_str(*self.src.pick(&["\n  ", "\n", "\r\n", "\r\n\t", " \x0c\n", "\r", "\r"]));
                 self.kinds |= K_WHITESPACE;
             }
             4 => {
